@@ -360,6 +360,15 @@ func pkEncBound(params rlwe.Parameters, hs float64) float64 {
 	return b
 }
 
+// freshBound: a-priori bound on the noise of the input ciphertexts the workloads encrypt, either
+// with the public key (pkEncBound) or with the secret key. A secret-key encryption samples its
+// error directly modulo Q, also when the parameters have auxiliary primes: its noise is one error
+// sample (up to B), which exceeds the public-key bound when B is large and the ring small.
+func freshBound(params rlwe.Parameters, hs float64) float64 {
+	B, _ := obs.ErrBound(params)
+	return 1 + math.Max(pkEncBound(params, hs), B)
+}
+
 // ---------------------------------------------------------------------------------------------
 // aggregation plans
 
